@@ -6,17 +6,21 @@
 import KB.Lemmas.SysStore
 import KB.Props.C02
 namespace KB.C02Store
-open KB KB.C02
+open KB KB.C02 KB.SysStore
 
 /-- Along one key's history modification revisions strictly increase (every batch the engine applied). -/
-theorem per_key_increasing {g0 g : G} (h0 : C02.Init g0) (hs : C02.StoreOK g0) (hr : Reachable g0 g) (k : Bytes) :
+theorem per_key_increasing {g0 g : G} (h0 : C02.Init g0) (hs : C02.StoreOK g0) (hr : Reachable g0 g)
+    (hb : g.dealt < 2 ^ 64) (k : Bytes) :
     ((g.hist.filter (fun w => w.key == k)).map (·.rev)).Pairwise (· < ·) := by
-  sorry
+  have h := SInv.reachable h0 hs hr
+  have := chain_pairwise (h.core.chain hb) k
+  rw [h.hist, List.filter_map, List.map_map]
+  exact this
 
 /-- Write responses: the header revision is never smaller than the mod revision of the kv carried. -/
 theorem write_header_ge_data {g0 g : G} (h0 : C02.Init g0) (hs : C02.StoreOK g0) (hr : Reachable g0 g) (d : Done)
     (hd : d ∈ g.done) (hdr : Nat) (k v : Bytes) (m : Nat) (h : d.res = .condFailed hdr (some (k, v, m))) :
-    m ≤ hdr := by
-  sorry
+    m ≤ hdr :=
+  (SInv.reachable h0 hs hr).dn d hd hdr k v m h
 
 end KB.C02Store
